@@ -18,4 +18,5 @@ let table : (string * (Model.sx -> Model.sx)) list = [
   "evmarith", Model.check_evmarith;
   "evmapp", Model.check_evmapp;
   "crash", Model.check_crash;
+  "blocksync", Model.check_blocksync;
 ]
